@@ -17,7 +17,7 @@ def renderConf (c : Conf) : String :=
     ["C", renderText cat.name] ++ cat.ingredients.flatMap fun i =>
       s!"I{i.names.length}" :: i.names.map renderText)
 
-def renderErr : Err → String
+def renderAisleErr : Err → String
   | .invalidCategory s => s!"err invalid_category {renderSpan s}"
   | .expectedCategory s => s!"err expected_category {renderSpan s}"
   | .duplicateCategory n a b => s!"err dup_category {renderText n} {renderSpan a} {renderSpan b}"
@@ -26,7 +26,7 @@ def renderErr : Err → String
 
 def renderParse : Except Err Conf → String
   | .ok c => renderConf c
-  | .error e => renderErr e
+  | .error e => renderAisleErr e
 
 /-- maximal runs of scalar values satisfying `p`, as `lo-hi` -/
 def wsRanges (p : Char → Bool) : String := Id.run do
